@@ -179,6 +179,7 @@ def check_universe(ctx, name, uni, psl):
 
 def universe_d():
     return build(["nip.io", "10.0.0.1.nip.io", "example.com", "localhost.example.com", "amazonaws.com", "aws.amazonaws.com", "docs.aws.amazonaws.com", "os.fedoraproject.org", "x.os.fedoraproject.org",
+                  "οδός.gr", "οδόσ.gr", "straße.de", "strasse.de", "x.straße.de", "example.co.uk", "a" * 64 + ".example.co.uk", ".".join(["abcdefghij"] * 24) + ".example.co.uk",
                   "httpbin.org", "api.httpbin.org", "https.example.org", "my_shop.example.com", "github.io", "a.github.io", "b.a.github.io", "cafe.be", "dead.beef.cafe.be"],
                  [(), ("x",)], queries=(None, "k=1", "next=https://example.com/login"), frags=(None, "f", "http://o.org/r"))
 
